@@ -4,7 +4,7 @@
    any failing log query) and all initial stored heads [h0]; the environment assumptions of the
    property text are the boolean checker [env_ok A h0 tr] with the relevant switches of [A] on. *)
 From Coq Require Import List NArith Bool.
-From V Require Import C17.Model C17.Proofs_A C17.Proofs_B C17.Proofs_C C17.Proofs_D C17.Proofs_E C17.Proofs_F.
+From V Require Import C17.Model C17.Proofs_A C17.Proofs_B C17.Proofs_C C17.Proofs_D C17.Proofs_E C17.Proofs_F C17.Proofs_G.
 Import ListNotations.
 Open Scope N_scope.
 
@@ -148,3 +148,48 @@ Example C17_mono_needed_catchup :
   regresses (mkAssume false true true true true) (Some (E 8 2 2)) []
     (CatchUp [E 3 1 1; E 8 2 2] 16 9 100 None 5).
 Proof. split; vm_compute; reflexivity. Qed.
+
+(* ---------- the geth adapter (l1/geth_l1_state_provider.go) composed with the client ----------
+   [s] is what geth delivers (logs incl. removal notices, subscription errors) interleaved with the
+   polls. The environment assumptions and the SPEC are stated on the geth-level stream itself
+   ([sys_trace fw_real s] is just its image under stateUpdateFromGethContract); the system runs with
+   the forwarding loop body [fw]. "Every removal notice is delivered" at provider level is
+   [forwards_all fw]: every event forwarded, one for one, in order, Removed flag preserved. *)
+Theorem C17_adapter_forwards_all : forwards_all fw_real.
+Proof. exact fw_real_forwards_all. Qed.
+Print Assumptions C17_adapter_forwards_all.
+
+Theorem C17_adapter_faithful : forall gs, sys_trace fw_real (map SLog gs) = map decode gs.
+Proof. exact adapter_faithful. Qed.
+Print Assumptions C17_adapter_faithful.
+
+Theorem C17_provider_head_spec : forall fw, forwards_all fw ->
+  forall A h0 s i fin,
+  a_mono A = true -> a_nounfinal A = true -> a_remc A = true -> a_order A = true ->
+  env_ok A h0 (sys_trace fw_real (s ++ [SPoll i])) = true ->
+  commit_fin (run h0 (sys_trace fw s)) i = Some fin ->
+  s_head (run h0 (sys_trace fw (s ++ [SPoll i]))) =
+  expected h0 (s_live (run h0 (sys_trace fw_real (s ++ [SPoll i])))) fin.
+Proof. exact provider_head_spec. Qed.
+Print Assumptions C17_provider_head_spec.
+
+Theorem C17_provider_monotone_l2 : forall fw, forwards_all fw ->
+  forall A h0 s1 s2 a b,
+  a_mono A = true -> a_nounfinal A = true -> a_order A = true -> a_l2 A = true ->
+  env_ok A h0 (sys_trace fw_real (s1 ++ s2)) = true ->
+  s_head (run h0 (sys_trace fw s1)) = Some a -> s_head (run h0 (sys_trace fw (s1 ++ s2))) = Some b ->
+  u_l2 a <= u_l2 b.
+Proof. exact provider_monotone. Qed.
+Print Assumptions C17_provider_monotone_l2.
+
+(* [forwards_all] is needed: a forwarder that swallows removal notices lets a reorged commit
+   become the L1 head as soon as its block number is finalised — although the geth-level stream
+   satisfies every environment assumption. *)
+Example C17_provider_forward_removed_needed :
+  let s := [SLog (mkGlog 10 1 1 false); SLog (mkGlog 10 1 1 true)] in
+  let i := Tick 10 in
+  env_ok all_on None (sys_trace fw_real (s ++ [SPoll i])) = true /\
+  commit_fin (run None (sys_trace fw_drop_removed s)) i = Some 10 /\
+  obs_of (s_head (run None (sys_trace fw_drop_removed (s ++ [SPoll i])))) = Some (1, 1) /\
+  expected None (s_live (run None (sys_trace fw_real (s ++ [SPoll i])))) 10 = None.
+Proof. vm_compute. auto. Qed.
